@@ -45,10 +45,10 @@ Proof. vm_compute. reflexivity. Qed.
    `ho` is the hash-map iteration order inside find_closest: any function that returns entries of the map. *)
 
 (* Tour::try_path: whatever edges are removed / added, a returned path has the tour's length, no repeated node,
-   starts at node 0 (= index_of(path[0]) used as a node id) and visits only endpoints of the new edge set *)
+   starts at the tour's first node and visits only endpoints of the new edge set *)
 Theorem C17_lkh_try_path_valid : forall t broken joined q,
   try_path t broken joined = Some q ->
-  length q = length (tpath t) /\ NoDup q /\ hd_error q = Some 0
+  length q = length (tpath t) /\ NoDup q /\ hd_error q = hd_error (tpath t)
   /\ forall x, In x q -> endp (new_edges t broken joined) x.
 Proof. exact try_path_sound. Qed.
 
@@ -56,37 +56,31 @@ Proof. exact try_path_sound. Qed.
    hash order, outer fuel and start path *)
 Theorem C17_lkh_permutation : forall cm nb ho,
   (forall l l', ho l = Some l' -> forall e, In e l' -> In e l) ->
-  forall ofuel p q, optimize cm nb ho ofuel p = Found q ->
-  Permutation q p /\ (q = p \/ hd_error q = Some 0).
-Proof. exact optimize_ok. Qed.
+  forall ofuel p q, optimize cm nb ho ofuel p = Found q -> Permutation q p.
+Proof. exact optimize_perm. Qed.
 
-(* clause "that start at the same node": holds for start paths beginning with node 0 (the only shape the internal
-   caller lkh_search produces) ... *)
-Theorem C17_lkh_start_partial : forall cm nb ho,
+(* clause "that start at the same node": for EVERY input path (after the repair of finding C17-F1, commit 04e832d:
+   try_path starts the rebuilt path at `*self.path.first()?`).  Before the repair `start_node` was
+   `index_of(path[0])` = 0 used as a node id, and this theorem held only for paths starting at node 0 (the former
+   C17_lkh_start_refuted witnessed [3;0;5;1;6;2;7;4] -> [0;1;2;3;5;6;7;4] on the line metric; the input stays in
+   corpus/C17/f1-lkh-start-node.json as a regression case and selftest/mutants/C17-9.diff re-introduces the defect). *)
+Theorem C17_lkh_start : forall cm nb ho,
   (forall l l', ho l = Some l' -> forall e, In e l' -> In e l) ->
-  forall ofuel p q, hd_error p = Some 0 -> optimize cm nb ho ofuel p = Found q ->
-  Permutation q p /\ hd_error q = hd_error p.
-Proof. exact optimize_start0. Qed.
+  forall ofuel p q, optimize cm nb ho ofuel p = Found q -> hd_error q = hd_error p.
+Proof. exact optimize_start. Qed.
 
-(* ... and is violated by the public lkh_optimize otherwise (finding C17-F1; same input as corpus/C17/f1-*.json) *)
 Definition line8 : list (list Z) :=
   map (fun i => map (fun j => Z.abs (Z.of_nat i - Z.of_nat j)) (seq 0 8)) (seq 0 8).
 Definition near8 : list (list nat) :=
   [[1;2;3;4;5;6;7];[0;2;3;4;5;6;7];[1;3;0;4;5;6;7];[2;4;1;5;0;6;7];[3;5;2;6;1;7;0];[4;6;3;7;2;1;0];[5;7;4;3;2;1;0];[6;5;4;3;2;1;0]].
-Theorem C17_lkh_start_refuted :
+
+(* non-vacuity of the start clause on the former counterexample: the tour changes and still starts at node 3 *)
+Theorem C17_lkh_start_nonvacuous :
   exists q, optimize line8 near8 id_ho 100 [3;0;5;1;6;2;7;4] = Found q
-            /\ hd_error q <> hd_error [3;0;5;1;6;2;7;4]
-            /\ (forall i j, cost line8 i j = cost line8 j i).
+            /\ hd_error q = Some 3 /\ q <> [3;0;5;1;6;2;7;4]
+            /\ check_lkh line8 [3;0;5;1;6;2;7;4] q = [].
 Proof.
-  exists [0;1;2;3;5;6;7;4]. split; [vm_compute; reflexivity|]. split; [discriminate|].
-  intros i j. unfold cost, line8.
-  destruct (Nat.lt_ge_cases i 8) as [Hi|Hi], (Nat.lt_ge_cases j 8) as [Hj|Hj].
-  - do 8 (destruct i as [|i]; [do 8 (destruct j as [|j]; [reflexivity|]); lia|]). lia.
-  - rewrite (nth_overflow (nth i _ _)); [|do 8 (destruct i as [|i]; [cbn; lia|]); lia].
-    rewrite (nth_overflow _ _ (n := j)); [|rewrite map_length, seq_length; exact Hj]. cbn. destruct i; reflexivity.
-  - rewrite (nth_overflow _ _ (n := i)); [|rewrite map_length, seq_length; exact Hi].
-    rewrite (nth_overflow (nth j _ _)); [|do 8 (destruct j as [|j]; [cbn; lia|]); lia]. cbn. destruct j; reflexivity.
-  - rewrite !(nth_overflow (map _ _)); try (rewrite map_length, seq_length; assumption). cbn. destruct i, j; reflexivity.
+  eexists. split; [vm_compute; reflexivity|]. split; [reflexivity|]. split; [discriminate | vm_compute; reflexivity].
 Qed.
 
 (* clause "always terminates", inner part: one improvement step (the mutually recursive choose_x / choose_y search, which
